@@ -23,10 +23,25 @@ def ownf(v, j):
     return f"x{j}" if v["shape"] == "named" else str(j - 1)
 
 
+REN = ("ren", "renexpr", "swap", "swapexpr")
+SWAP = ("swap", "swapexpr")
+
+
+def posf(v, j):
+    return sum(1 for m in mapped(v) if m < j)
+
+
+def target(v, j):
+    if v["fs"][j - 1] in SWAP:
+        ms = mapped(v)
+        return ms[len(ms) - 1 - posf(v, j)]
+    return j
+
+
 def cf(v, j):
     if cform(v) == "named":
-        return f"r{j}" if (v["fs"][j - 1] == "ren" or v["shape"] == "tuple") else f"x{j}"
-    return str(sum(1 for m in mapped(v) if m < j))
+        return f"r{target(v, j)}" if (v["fs"][j - 1] in REN or v["shape"] == "tuple") else f"x{j}"
+    return str(posf(v, target(v, j)))
 
 
 def vdef(name, form, fields):
@@ -69,10 +84,12 @@ def program(ci, c):
                 if f == "none":
                     # positional target: an explicit index would be the rename item; a by-reference payload field is cloned (README "Enums")
                     a = f"#[map(~{tail})]" if byref else ""
-                elif f == "ren":
+                elif f in ("ren", "swap"):
                     a = f"#[map({rn}, ~{tail})]" if byref else f"#[map({rn})]"
                 elif f == "expr":
                     a = f"#[map(tg2({i},{j}, ~))]"
+                elif f in ("renexpr", "swapexpr"):
+                    a = f"#[map({rn}, tg2({i},{j}, ~))]"
                 else:
                     a = f"#[ghost({{gh2({i},{j})}})]"
                 fa.append(a)
@@ -90,7 +107,8 @@ def program(ci, c):
     for i, v in enumerate(vs, 1):
         if v["it"] not in ("ghostd", "ghost"):
             cn = f"RV{i}" if v["it"] == "ren" else f"V{i}"
-            dvars.append((i, cn, cform(v), [cf(v, j) for j in mapped(v)]))
+            cfs = [cf(v, j) for j in mapped(v)]
+            dvars.append((i, cn, cform(v), sorted(cfs, key=int) if cform(v) == "tuple" else cfs))
     Ddef = "#[derive(Clone)] pub enum D { " + " ".join(vdef(cn, form, fs) + "," for _, cn, form, fs in dvars) + " }"
     DIdef = "#[derive(Clone)] pub enum DI { " + " ".join(vdef(cn, form, fs) + "," for _, cn, form, fs in dvars) + " Gd(usize), Dc, }"
     dfl = " | _ => DI::Dc" if c["dflt"] else ""
